@@ -1,4 +1,4 @@
 From Coq Require Import ExtrOcamlBasic ZArith List.
 From LV Require Import lib.Conv model.DoubleSign spec.DoubleSignSpec.
 Extraction "model.ml" conv_roots synced_to_emit synced_to_emit_old detect_parallel werr_code
-  expected answer_ok may_emit_b parallel_b longest capped min64 max64.
+  expected answer_ok may_emit_b parallel_b saturated_b elapsed longest capped min64 max64.
